@@ -31,6 +31,87 @@ func init() {
 		sd := ex.fn(crel, "", "setDo")
 		okDo = okDo && sd != nil && strings.Contains(ex.str(sd.Body), "const doBit = 1 << 15") && strings.Contains(ex.str(sd.Body), "if do { opt.Hdr.Ttl |= doBit }")
 		ex.setBool("c15RespOptMirrorsDo", okDo, nc != nil, "NewContext: respOpt exists iff clientOpt does; DO copied")
+		// NewContext creates the response OPT under `ctx.clientOpt != nil` and nothing else: whatever the client's OPT
+		// says about itself (VERSION, extended-rcode byte, Z bits, size, options), it is an OPT. Counted: conjuncts of the
+		// condition of the top-level `if` whose body assigns ctx.respOpt other than `ctx.clientOpt != nil`, returns in front
+		// of that `if` (+1000 when there is not exactly one assignment to ctx.respOpt in NewContext, the `if` is not a
+		// top-level statement without init, `ctx.clientOpt != nil` is not among the conjuncts, or the Context literal sets
+		// respOpt).
+		if nc != nil {
+			extra, nAssign, nIf := int64(0), 0, 0
+			ast.Inspect(nc.Body, func(n ast.Node) bool {
+				if a, ok := n.(*ast.AssignStmt); ok {
+					for _, l := range a.Lhs {
+						if ex.str(l) == "ctx.respOpt" {
+							nAssign++
+						}
+					}
+				}
+				if kv, ok := n.(*ast.KeyValueExpr); ok && ex.str(kv.Key) == "respOpt" {
+					extra += 1000
+				}
+				return true
+			})
+			for _, st := range nc.Body.List {
+				s, ok := st.(*ast.IfStmt)
+				if !ok {
+					continue
+				}
+				assigns := false
+				for _, b := range s.Body.List {
+					if a, ok := b.(*ast.AssignStmt); ok {
+						for _, l := range a.Lhs {
+							assigns = assigns || ex.str(l) == "ctx.respOpt"
+						}
+					}
+				}
+				if !assigns {
+					continue
+				}
+				nIf++
+				var conj []ast.Expr
+				var split func(e ast.Expr)
+				split = func(e ast.Expr) {
+					switch v := e.(type) {
+					case *ast.ParenExpr:
+						split(v.X)
+					case *ast.BinaryExpr:
+						if v.Op == token.LAND {
+							split(v.X)
+							split(v.Y)
+							return
+						}
+						conj = append(conj, e)
+					default:
+						conj = append(conj, e)
+					}
+				}
+				split(s.Cond)
+				seen := false
+				for _, c := range conj {
+					if ex.str(c) == "ctx.clientOpt != nil" {
+						seen = true
+					} else {
+						extra++
+					}
+				}
+				if !seen || s.Init != nil {
+					extra += 1000
+				}
+				ast.Inspect(nc.Body, func(n ast.Node) bool {
+					if r, ok := n.(*ast.ReturnStmt); ok && r.Pos() < s.Pos() {
+						extra++
+					}
+					return true
+				})
+			}
+			if nAssign != 1 || nIf != 1 {
+				extra += 1000
+			}
+			ex.setNat("c15RespOptExtraConds", extra, true, "NewContext: conditions besides `ctx.clientOpt != nil` under which the response OPT is created (further conjuncts of that `if`, returns in front of it); 0 = a client that sent an OPT - of any VERSION, extended-rcode byte, Z bits - gets a response OPT")
+		} else {
+			ex.setNat("c15RespOptExtraConds", 0, false, "NewContext not found")
+		}
 		no := ex.fn(crel, "", "newOpt")
 		sz, okSz := ex.pkgConst(crel, "edns0Size", nil)
 		ex.setBool("c15FreshOptShape", no != nil && okSz && sz == 1200 &&
